@@ -1200,3 +1200,314 @@ Lemma validate_example :
   (* a second query for the cached name is rejected *)
   validate cfg (tr ++ [EvL 0 2 [97; 46; 98]; EvQ 0 49153 8 [97; 46; 98]]) EndHang [] = false.
 Proof. cbv zeta. split; [vm_compute; reflexivity|]. split; vm_compute; reflexivity. Qed.
+
+(* ======================================================================================== *)
+(* Part 4: progress - a waiting lookup can always be brought to its return                   *)
+(* ======================================================================================== *)
+
+Definition is_miss (n : name) (x : lookup) : bool :=
+  match l_kind x with Miss => list_eqb (l_name x) n | Hit _ => false end.
+Definition miss_count (n : name) (l : list lookup) : Z := Z.of_nat (length (filter (is_miss n) l)).
+Definition open_sock (n : name) (k : sock) : bool :=
+  list_eqb (k_name k) n && match k_status k with Closed => false | _ => true end.
+Definition open_count (n : name) (l : list sock) : Z := Z.of_nat (length (filter (open_sock n) l)).
+Definition ports_unique (l : list sock) : Prop := NoDup (map k_port l).
+
+(* every waiting cache miss has its query still owed or a socket that is not closed *)
+Definition live_ok (cs : cstate) : Prop :=
+  ports_unique (c_socks cs) /\
+  forall n, miss_count n (c_looks cs) <= owed_count n (c_owed cs) + open_count n (c_socks cs).
+Definition live_inv (st : state) : Prop := forall c, live_ok (getc st c).
+
+Lemma live_init : live_inv init_state.
+Proof. intros c. split; [constructor|]. intros n. cbn. lia. Qed.
+
+Lemma find_sock_none_ports p l : find_sock p l = None -> ~ In p (map k_port l).
+Proof.
+  intros H I. apply in_map_iff in I as (k & E & Ik). apply (find_sock_none _ _ H k Ik E).
+Qed.
+Lemma find_sock_unique l k : ports_unique l -> In k l -> find_sock (k_port k) l = Some k.
+Proof.
+  unfold ports_unique. induction l as [|x l IH]; cbn [In map find_sock]; [tauto|].
+  intros U [E|I].
+  - subst. rewrite Z.eqb_refl. reflexivity.
+  - inversion U; subst. destruct (k_port x =? k_port k) eqn:E.
+    + exfalso. apply H1. apply in_map_iff. exists k. split; [lia|exact I].
+    + apply IH; assumption.
+Qed.
+Lemma set_sock_ports p s l : map k_port (set_sock p s l) = map k_port l.
+Proof.
+  induction l as [|x l IH]; cbn [set_sock map]; [reflexivity|].
+  destruct (k_port x =? p); cbn [map k_port]; [reflexivity|]. rewrite IH. reflexivity.
+Qed.
+
+(* set_sock on the found socket: the count of open sockets per name *)
+Lemma open_count_set p s l k : find_sock p l = Some k -> forall n,
+  open_count n (set_sock p s l) =
+  open_count n l - (if open_sock n k then 1 else 0)
+                 + (if open_sock n (mkSock (k_port k) (k_name k) (k_id k) s) then 1 else 0).
+Proof.
+  induction l as [|x l IH]; cbn [find_sock set_sock]; [discriminate|].
+  intros F n. destruct (k_port x =? p) eqn:E.
+  - inversion F; subst x. unfold open_count. cbn [filter].
+    destruct (open_sock n k); destruct (open_sock n (mkSock _ _ _ s)); cbn [length]; lia.
+  - specialize (IH F n). unfold open_count in *. cbn [filter].
+    destruct (open_sock n x); cbn [length]; lia.
+Qed.
+
+Lemma miss_count_remove h l x : find_look h l = Some x -> forall n,
+  miss_count n (remove_look h l) = miss_count n l - (if is_miss n x then 1 else 0).
+Proof.
+  induction l as [|y l IH]; cbn [find_look remove_look]; [discriminate|].
+  intros F n. destruct (l_h y =? h) eqn:E.
+  - inversion F; subst y. unfold miss_count. cbn [filter]. destruct (is_miss n x); cbn [length]; lia.
+  - specialize (IH F n). unfold miss_count in *. cbn [filter]. destruct (is_miss n y); cbn [length]; lia.
+Qed.
+
+Lemma live_step cfg st e st' : live_inv st -> step cfg st e = Some st' -> live_inv st'.
+Proof.
+  intros L H. unfold step in H. destruct (s_dead st); [discriminate|].
+  assert (Set1 : forall c v, live_ok v -> live_inv (setc st c v)).
+  { intros c v Hv c'. rewrite getc_setc. destruct (c =? c'); [exact Hv|apply L]. }
+  destruct e as [c h n|c p id n|c p bytes|c h n a|site].
+  - destruct (L c) as [U M].
+    destruct (tbl_get (c_cache (getc st c)) n); inversion H; subst st'; apply Set1;
+      (split; [exact U|]); intros m; specialize (M m); cbn [c_looks c_owed c_socks].
+    + unfold miss_count in *. cbn [filter is_miss l_kind]. exact M.
+    + unfold miss_count, owed_count in *. cbn [filter is_miss l_kind l_name].
+      destruct (list_eqb n m); cbn [length]; lia.
+  - destruct (L c) as [U M].
+    destruct (remove_first n (c_owed (getc st c))) as [owed'|] eqn:Ro; [|discriminate].
+    destruct (find_sock p (c_socks (getc st c))) eqn:Fs; [discriminate|].
+    destruct (_ && _); [|discriminate]. inversion H; subst st'. apply Set1.
+    unfold live_ok. cbn [c_looks c_owed c_socks]. split.
+    + unfold ports_unique. cbn [map k_port]. constructor; [apply find_sock_none_ports; exact Fs|exact U].
+    + intros m. specialize (M m). pose proof (remove_first_count _ _ _ Ro m) as RC.
+      unfold open_count in *. cbn [filter]. unfold open_sock at 1. cbn [k_name k_status].
+      rewrite andb_true_r. destruct (list_eqb n m); cbn [length]; lia.
+  - destruct (L c) as [U M].
+    destruct (find_sock p (c_socks (getc st c))) as [k|] eqn:Fs; [|discriminate].
+    destruct (k_status k) eqn:Ks; try discriminate.
+    destruct (_ <? _); [|discriminate]. destruct (server_respond _ _); try discriminate.
+    destruct (list_eqb _ _); [|discriminate]. inversion H; subst st'.
+    intros c'. rewrite getc_mkS. fold (getc (setc st c (mkC (c_cache (getc st c)) (c_looks (getc st c))
+      (c_owed (getc st c)) (set_sock p (Answered bytes) (c_socks (getc st c))))) c').
+    apply Set1. unfold live_ok. cbn [c_looks c_owed c_socks]. split.
+    + unfold ports_unique. rewrite set_sock_ports. exact U.
+    + intros m. specialize (M m). rewrite (open_count_set _ _ _ _ Fs m).
+      unfold open_sock. cbn [k_name k_status]. rewrite Ks. lia.
+  - destruct (L c) as [U M].
+    destruct (find_look h (c_looks (getc st c))) as [l|] eqn:Fl; [|discriminate].
+    destruct (list_eqb (l_name l) n) eqn:En; [|discriminate]. apply list_eqb_eq in En.
+    destruct (l_kind l) as [a'|] eqn:Kl.
+    + destruct (list_eqb a' a); [|discriminate]. inversion H; subst st'. apply Set1.
+      unfold live_ok. cbn [c_looks c_owed c_socks]. split; [exact U|]. intros m. specialize (M m).
+      rewrite (miss_count_remove _ _ _ Fl m). unfold is_miss. rewrite Kl. lia.
+    + destruct (take_reply _ n a _) as [[p cache']|] eqn:Tr; [|discriminate].
+      inversion H; subst st'. apply Set1. unfold live_ok. cbn [c_looks c_owed c_socks].
+      destruct (take_reply_spec _ _ _ _ _ _ Tr) as (k & b & Ik & Pk & Nk & Sk & _).
+      pose proof (find_sock_unique _ _ U Ik) as Fk. rewrite Pk in Fk. split.
+      * unfold ports_unique. rewrite set_sock_ports. exact U.
+      * intros m. specialize (M m). rewrite (miss_count_remove _ _ _ Fl m), (open_count_set _ _ _ _ Fk m).
+        unfold is_miss, open_sock. cbn [k_name k_status]. rewrite Kl, Sk, En, Nk, andb_false_r.
+        destruct (list_eqb n m); cbn [andb]; lia.
+  - destruct (_ || _); [|discriminate]. inversion H; subst st'. intros c'. apply (L c').
+Qed.
+
+Lemma live_run cfg tr : forall st, run cfg tr st -> live_inv st.
+Proof.
+  unfold run. induction tr as [|e tr IH] using rev_ind; intros st R.
+  - cbn [replay] in R. inversion R; subst. apply live_init.
+  - rewrite replay_snoc in R. destruct (replay cfg init_state tr) as [s|]; [|discriminate].
+    apply (live_step cfg s e st (IH s eq_refl) R).
+Qed.
+
+Lemma set_sock_member p s l k : find_sock p l = Some k ->
+  In (mkSock (k_port k) (k_name k) (k_id k) s) (set_sock p s l).
+Proof.
+  induction l as [|x l IH]; cbn [find_sock set_sock]; [discriminate|].
+  intros F. destruct (k_port x =? p).
+  - inversion F; subst x. left. reflexivity.
+  - right. apply IH. exact F.
+Qed.
+
+Lemma take_reply_exists cache n a l :
+  (forall k b, In k l -> k_status k = Answered b -> k_name k = n ->
+     exists c', client_accept cache n b = Ok (c', a)) ->
+  (exists k b, In k l /\ k_status k = Answered b /\ k_name k = n) ->
+  exists p c', take_reply cache n a l = Some (p, c').
+Proof.
+  induction l as [|x l IH]; intros A (k & b & I & S & N); [destruct I|].
+  assert (Tail : (exists k b, In k l /\ k_status k = Answered b /\ k_name k = n) ->
+                 exists p c', take_reply cache n a l = Some (p, c')).
+  { apply IH. intros k0 b0 I0. apply A. right. exact I0. }
+  cbn [take_reply]. destruct (k_status x) as [|bx|] eqn:Sx.
+  - apply Tail. destruct I as [I|I]; [subst; congruence|]. exists k, b. auto.
+  - destruct (list_eqb (k_name x) n) eqn:Ex.
+    + apply list_eqb_eq in Ex. destruct (A x bx (or_introl eq_refl) Sx Ex) as [c' Hc].
+      rewrite Hc, list_eqb_refl. eauto.
+    + apply Tail. destruct I as [I|I].
+      * subst x. apply list_eqb_neq in Ex. contradiction.
+      * exists k, b. auto.
+  - apply Tail. destruct I as [I|I]; [subst; congruence|]. exists k, b. auto.
+Qed.
+
+Section Progress.
+Variable cfg : config.
+Hypothesis Hrecords : records_ok cfg = true.
+Let ginv := inv cfg (good3 cfg).
+
+(* a waiting cache miss with an answered socket for its name returns *)
+Lemma enabled_R tr st c h l : ginv tr st -> s_dead st = None ->
+  find_look h (c_looks (getc st c)) = Some l -> l_kind l = Miss ->
+  (exists k b, In k (c_socks (getc st c)) /\ k_status k = Answered b /\ k_name k = l_name l) ->
+  exists a st', step cfg st (EvR c h (l_name l) a) = Some st' /\
+                tbl_get (server_table cfg) (l_name l) = Some a.
+Proof.
+  intros (_ & C & _) D Fl Kl Ex. destruct (C c) as (_ & _ & _ & Cs). rewrite Forall_forall in Cs.
+  destruct Ex as (k & b & Ik & Sk & Nk).
+  destruct (Cs k Ik) as (Gk & Idk & Rk). rewrite Sk in Rk. destruct Rk as (a & Ta & _ & _).
+  rewrite Nk in Ta. exists a.
+  destruct (take_reply_exists (c_cache (getc st c)) (l_name l) a (c_socks (getc st c))) as (p & c' & Tr).
+  - intros k0 b0 I0 S0 N0. destruct (Cs k0 I0) as (G0 & Id0 & R0). rewrite S0 in R0.
+    destruct R0 as (a0 & Ta0 & Eb0 & _). rewrite N0 in *. rewrite Ta in Ta0. inversion Ta0; subst a0 b0.
+    eexists. apply client_accept_response; [apply (good3_name_ok cfg); exact G0|exact Id0|].
+    apply (server_table_ok cfg Hrecords _ _ Ta).
+  - exists k, b. auto.
+  - eexists. split; [|exact Ta]. unfold step. rewrite D, Fl, list_eqb_refl, Kl, Tr. reflexivity.
+Qed.
+
+(* ... with a socket whose query is on the network: the server answers, then it returns *)
+Lemma enabled_AR tr st c h l k : ginv tr st -> live_inv st -> s_dead st = None ->
+  find_look h (c_looks (getc st c)) = Some l -> l_kind l = Miss ->
+  In k (c_socks (getc st c)) -> k_status k = Sent -> k_name k = l_name l ->
+  s_accepted st < conn_limit cfg ->
+  exists e a st', replay cfg st [e; EvR c h (l_name l) a] = Some st' /\
+                  tbl_get (server_table cfg) (l_name l) = Some a.
+Proof.
+  intros I L D Fl Kl Ik Sk Nk Acc. pose proof I as (_ & C & _).
+  destruct (C c) as (_ & _ & _ & Cs). rewrite Forall_forall in Cs.
+  destruct (Cs k Ik) as (Gk & Idk & _). destruct (L c) as [U _].
+  pose proof Gk as Gk'. unfold good3 in Gk'. apply andb_prop in Gk' as [Gk' Tk]. apply andb_prop in Gk' as [Nok Fk].
+  destruct (tbl_get (server_table cfg) (k_name k)) as [a|] eqn:Ta; [|discriminate].
+  set (resp := response_bytes (k_id k) (k_name k) a).
+  set (v := mkC (c_cache (getc st c)) (c_looks (getc st c)) (c_owed (getc st c))
+                (set_sock (k_port k) (Answered resp) (c_socks (getc st c)))).
+  set (st1 := mkS (s_clients (setc st c v)) (s_accepted st + 1) None).
+  assert (S1 : step cfg st (EvA c (k_port k) resp) = Some st1).
+  { unfold step. rewrite D, (find_sock_unique _ _ U Ik), Sk.
+    assert (E : (s_accepted st <? conn_limit cfg) = true) by lia. rewrite E.
+    rewrite (server_respond_fits cfg _ _ Nok Idk Fk), Ta. fold resp. rewrite list_eqb_refl. reflexivity. }
+  pose proof (inv_step_A cfg (good3 cfg) (good3_name_ok cfg) tr st c (k_port k) resp st1 I S1) as I1.
+  assert (G1 : getc st1 c = v) by (change (getc (setc st c v) c = v); apply getc_setc_same).
+  destruct (enabled_R _ st1 c h l I1 eq_refl) as (a' & st2 & S2 & Ta').
+  - rewrite G1. exact Fl.
+  - exact Kl.
+  - rewrite G1. unfold v. cbn [c_socks].
+    exists (mkSock (k_port k) (k_name k) (k_id k) (Answered resp)), resp.
+    split; [|split; [reflexivity|exact Nk]].
+    apply set_sock_member. apply (find_sock_unique _ _ U Ik).
+  - exists (EvA c (k_port k) resp), a', st2. split; [|exact Ta']. cbn [replay]. rewrite S1, S2. reflexivity.
+Qed.
+Lemma remove_first_some n l : 0 < owed_count n l -> exists l', remove_first n l = Some l'.
+Proof.
+  induction l as [|x l IH]; unfold owed_count; cbn [filter remove_first]; [cbn; lia|].
+  destruct (list_eqb x n) eqn:E; [eauto|]. fold (owed_count n l). intros H.
+  destruct (IH H) as [l' R]. rewrite R. eauto.
+Qed.
+Lemma open_count_pos n l : 0 < open_count n l ->
+  exists k, In k l /\ k_name k = n /\ k_status k <> Closed.
+Proof.
+  unfold open_count. intros H. destruct (filter (open_sock n) l) as [|k r] eqn:F; [cbn in H; lia|].
+  assert (I : In k (filter (open_sock n) l)) by (rewrite F; left; reflexivity).
+  apply filter_In in I as [I O]. unfold open_sock in O. apply andb_prop in O as [O1 O2].
+  apply list_eqb_eq in O1. exists k. split; [exact I|]. split; [exact O1|].
+  destruct (k_status k); congruence.
+Qed.
+Lemma miss_count_pos l ls : In l ls -> l_kind l = Miss -> 0 < miss_count (l_name l) ls.
+Proof.
+  intros I K. unfold miss_count.
+  assert (F : In l (filter (is_miss (l_name l)) ls)).
+  { apply filter_In. split; [exact I|]. unfold is_miss. rewrite K. apply list_eqb_refl. }
+  destruct (filter (is_miss (l_name l)) ls); [destruct F|]. cbn [length]. lia.
+Qed.
+
+(* from any reachable live state in which the server still accepts and the client has a free
+   port, any waiting lookup is brought to its return by at most two further labels (the query
+   leaves, the reply leaves) - whatever else is in flight *)
+Lemma progress_state tr st c h l : ginv tr st -> live_inv st -> s_dead st = None ->
+  find_look h (c_looks (getc st c)) = Some l ->
+  s_accepted st < conn_limit cfg ->
+  (exists p, 49152 <= p <= 65535 /\ find_sock p (c_socks (getc st c)) = None) ->
+  exists evs a st', (length evs <= 2)%nat /\
+    replay cfg st (evs ++ [EvR c h (l_name l) a]) = Some st' /\
+    tbl_get (server_table cfg) (l_name l) = Some a.
+Proof.
+  intros I L D Fl Acc (p & Pr & Pf). pose proof I as (_ & C & _).
+  destruct (C c) as (_ & Cl & Co & _). destruct (find_look_in _ _ _ Fl) as [Il _].
+  rewrite Forall_forall in Cl. destruct (Cl _ Il) as [Gl Lk].
+  destruct (l_kind l) as [a|] eqn:Kl.
+  - (* answered from the cache *)
+    destruct Lk as [Sa _]. exists [], a. eexists. split; [cbn; lia|]. split; [|exact Sa].
+    cbn [app replay]. unfold step. rewrite D, Fl, list_eqb_refl, Kl, list_eqb_refl. reflexivity.
+  - destruct (L c) as [U M]. specialize (M (l_name l)). pose proof (miss_count_pos _ _ Il Kl) as Mp.
+    destruct (Z_lt_le_dec 0 (open_count (l_name l) (c_socks (getc st c)))) as [Op|Op].
+    + destruct (open_count_pos _ _ Op) as (k & Ik & Nk & Sk).
+      destruct (k_status k) as [|b|] eqn:Ks; [| |congruence].
+      * destruct (enabled_AR tr st c h l k I L D Fl Kl Ik Ks Nk Acc) as (e & a & st' & R & Ta).
+        exists [e], a, st'. split; [cbn; lia|]. split; [exact R|exact Ta].
+      * destruct (enabled_R tr st c h l I D Fl Kl) as (a & st' & R & Ta); [exists k, b; auto|].
+        exists [], a, st'. split; [cbn; lia|]. split; [|exact Ta]. cbn [app replay]. rewrite R. reflexivity.
+    + (* the query has not left yet *)
+      assert (Ow : 0 < owed_count (l_name l) (c_owed (getc st c))) by lia.
+      destruct (remove_first_some _ _ Ow) as [owed' Ro].
+      set (k := mkSock p (l_name l) 0 Sent).
+      set (v := mkC (c_cache (getc st c)) (c_looks (getc st c)) owed' (k :: c_socks (getc st c))).
+      assert (S1 : step cfg st (EvQ c p 0 (l_name l)) = Some (setc st c v)).
+      { unfold step. rewrite D, Ro, Pf.
+        assert (E : ((49152 <=? p) && (p <=? 65535) && (0 <=? 0) && (0 <? 65536)) = true) by lia.
+        rewrite E. reflexivity. }
+      pose proof (inv_step_Q cfg (good3 cfg) (good3_name_ok cfg) tr st c p 0 (l_name l) _ I S1) as I1.
+      pose proof (live_step cfg st _ _ L S1) as L1.
+      assert (G1 : getc (setc st c v) c = v) by apply getc_setc_same.
+      destruct (enabled_AR _ (setc st c v) c h l k I1 L1) as (e & a & st' & R & Ta).
+      * exact D.
+      * rewrite G1. exact Fl.
+      * exact Kl.
+      * rewrite G1. left. reflexivity.
+      * reflexivity.
+      * reflexivity.
+      * exact Acc.
+      * exists [EvQ c p 0 (l_name l); e], a, st'. split; [cbn; lia|]. split; [|exact Ta].
+        cbn [app replay] in *. rewrite S1. exact R.
+Qed.
+End Progress.
+
+Lemma progress_run cfg tr st c h l : records_ok cfg = true -> run cfg tr st ->
+  (forall c h n, In (EvL c h n) tr -> good3 cfg n = true) ->
+  find_look h (c_looks (getc st c)) = Some l ->
+  s_accepted st < conn_limit cfg ->
+  (exists p, 49152 <= p <= 65535 /\ find_sock p (c_socks (getc st c)) = None) ->
+  exists evs a st', (length evs <= 2)%nat /\
+    run cfg (tr ++ evs ++ [EvR c h (l_name l) a]) st' /\
+    tbl_get (server_table cfg) (l_name l) = Some a.
+Proof.
+  intros R H G Fl Acc Pf.
+  pose proof (inv_run cfg (good3 cfg) (good3_name_ok cfg) R tr st H G) as I.
+  destruct (no_crash cfg tr R st H G) as [D _].
+  destruct (progress_state cfg R tr st c h l I (live_run cfg tr st H) D Fl Acc Pf) as (evs & a & st' & Le & Rp & Ta).
+  exists evs, a, st'. split; [exact Le|]. split; [|exact Ta].
+  unfold run in *. rewrite replay_app, H. exact Rp.
+Qed.
+
+(* the hypotheses of progress_run hold in the state after a first lookup *)
+Lemma progress_example :
+  let cfg := as_is [([97; 46; 98], [10; 0; 0; 1])] 1 in
+  let n := [97; 46; 98] in
+  exists st, run cfg [EvL 0 0 n] st /\ good3 cfg n = true /\
+    find_look 0 (c_looks (getc st 0)) = Some (mkLookup 0 n Miss) /\
+    s_accepted st < conn_limit cfg /\ find_sock 49152 (c_socks (getc st 0)) = None.
+Proof.
+  cbv zeta. eexists. split; [vm_compute; reflexivity|]. split; [reflexivity|].
+  split; [reflexivity|]. split; reflexivity.
+Qed.
